@@ -40,3 +40,20 @@ package codegen
 //@   contains input output hvec2 hvec3 hvec4 fvec2 fvec3 fvec4 filter sizeof cast namespace
 //@   contains using main
 //@   none-suffix _
+//
+// ---- statement-tree walkers descend into every nested block -------------------------------
+// (type-derived: for the statement handled by one iteration every field of type
+// Block of every statement kind is passed to the recursive call; see ir/zz_verif_contracts.go)
+//
+//@ func walkBlockForCalls
+//@   mode bv
+//@   tags C05
+//@   ghostcall walkBlockForCalls visitedBlock
+//@   traverse stepmark 1 block ir.Block visitedBlock($)
+//
+//@ func scanBlockForStages
+//@   mode bv
+//@   tags C05
+//@   ghostcall scanBlockForStages visitedBlock
+//@   traverse stepmark 1 block ir.Block visitedBlock($)
+//
